@@ -622,9 +622,22 @@ Proof.
   intros. unfold w_exchange_batch. fold (be_xb_go add rem rels). be_kq_tac; try be_kq_rows.
 Qed.
 
-Lemma be_kq_set_relations_table : forall Qv otid old_len rels, be_kq Qv (set_relations_table otid old_len rels).
-Proof. intros. unfold set_relations_table. be_kq_tac; try be_kq_rows. Qed.
-#[export] Hint Resolve be_kq_w_exchange_batch be_kq_set_relations_table : be_kq.
+Lemma be_kq_set_relations_plan : forall Qv otid rels, be_kq Qv (set_relations_plan otid rels).
+Proof. intros. unfold set_relations_plan. be_kq_tac. Qed.
+Lemma be_kq_set_relations_fire_removes : forall Qv plans, be_kq Qv (set_relations_fire_removes plans).
+Proof.
+  intros. unfold set_relations_fire_removes. apply be_kq_forM. intros p. destruct p as [[[otid ntid] len] cm].
+  be_kq_tac; try be_kq_rows.
+Qed.
+Lemma be_kq_set_relations_move : forall Qv p, be_kq Qv (set_relations_move p).
+Proof. intros Qv p. destruct p as [[[otid ntid] len] cm]. unfold set_relations_move. be_kq_tac. Qed.
+Lemma be_kq_set_relations_fire_adds : forall Qv moved, be_kq Qv (set_relations_fire_adds moved).
+Proof.
+  intros. unfold set_relations_fire_adds. apply be_kq_forM. intros p. destruct p as [[[ntid start] len] cm].
+  be_kq_tac; try be_kq_rows.
+Qed.
+#[export] Hint Resolve be_kq_w_exchange_batch be_kq_set_relations_plan be_kq_set_relations_fire_removes
+  be_kq_set_relations_move be_kq_set_relations_fire_adds : be_kq.
 Lemma be_kq_w_set_relations_batch : forall Qv fi brels rels, be_kq Qv (w_set_relations_batch fi brels rels).
 Proof. intros. unfold w_set_relations_batch. be_kq_tac. Qed.
 Lemma be_kq_arch_reset : forall Qv aid, be_kq Qv (arch_reset aid).
@@ -1246,6 +1259,7 @@ Ltac be_T_norm s0 :=
   change (has_obs (be_T s0)) with (has_obs s0);
   change (count_in_world (be_T s0)) with (count_in_world s0);
   change (snapshot_entity (be_T s0)) with (snapshot_entity s0);
+  change (world_view (be_T s0)) with (world_view s0);
   change (handle (be_T s0)) with (handle s0);
   change (rare_component (be_T s0)) with (rare_component s0);
   change (entry_addr (be_T s0)) with (entry_addr s0);
@@ -1828,10 +1842,25 @@ Lemma be_hom_w_exchange_batch : forall fi brels add rem rels vals, be_lt64 add -
 Proof.
   intros. unfold w_exchange_batch. fold (be_xb_go add rem rels). be_hom_tac; try be_hom_rows.
 Qed.
-Lemma be_hom_set_relations_table : forall otid old_len rels,
-  be_hom eq (set_relations_table otid old_len rels) (set_relations_table otid old_len rels).
-Proof. intros. unfold set_relations_table. be_hom_tac; try be_hom_rows. Qed.
-#[export] Hint Resolve be_hom_w_exchange_batch be_hom_set_relations_table : be_hom.
+Lemma be_hom_set_relations_plan : forall otid rels,
+  be_hom eq (set_relations_plan otid rels) (set_relations_plan otid rels).
+Proof. intros. unfold set_relations_plan. be_hom_tac. Qed.
+Lemma be_hom_set_relations_fire_removes : forall plans,
+  be_hom eq (set_relations_fire_removes plans) (set_relations_fire_removes plans).
+Proof.
+  intros. unfold set_relations_fire_removes. apply be_hom_forM; [reflexivity|]. intros p _.
+  destruct p as [[[otid ntid] len] cm]. be_hom_tac; try be_hom_rows.
+Qed.
+Lemma be_hom_set_relations_move : forall p, be_hom eq (set_relations_move p) (set_relations_move p).
+Proof. intros p. destruct p as [[[otid ntid] len] cm]. unfold set_relations_move. be_hom_tac. Qed.
+Lemma be_hom_set_relations_fire_adds : forall moved,
+  be_hom eq (set_relations_fire_adds moved) (set_relations_fire_adds moved).
+Proof.
+  intros. unfold set_relations_fire_adds. apply be_hom_forM; [reflexivity|]. intros p _.
+  destruct p as [[[ntid start] len] cm]. be_hom_tac; try be_hom_rows.
+Qed.
+#[export] Hint Resolve be_hom_w_exchange_batch be_hom_set_relations_plan be_hom_set_relations_fire_removes
+  be_hom_set_relations_move be_hom_set_relations_fire_adds : be_hom.
 Lemma be_hom_w_set_relations_batch : forall fi brels rels,
   be_hom eq (w_set_relations_batch fi brels rels) (w_set_relations_batch fi brels rels).
 Proof. intros. unfold w_set_relations_batch. be_hom_tac. Qed.
